@@ -18,8 +18,7 @@ package boltz
 //@   ensures[proceed-iff] result == (bucket.Err == nil && (checker == nil || fcUpd(checker, name)))
 
 // setTyped: the value stored under name is the tag byte followed by the bytes; nil is the tag TypeNil alone
-//@ spec nilEnc() Str
-//@ axiom nilEnc_def: (and (= (str_len nilEnc) 1) (= (str_at nilEnc 0) 5))
+//@ spec nilEnc() Str = (prepend 5 str_empty)
 //@ func (*TypedBucket).setTyped
 //@   props C13
 //@   assume bucket.ErrorHolderImpl != nil && bucket.Bucket != nil
